@@ -426,7 +426,10 @@ def parse_opcode(p: Parser) -> OpcodeAstNode:
     addressing_mode, inner_index, operand = parse_operand_and_addressing(addressing_mode, opcode, p)
 
     if accept_token(p.current(), TokenType.ADDRESSING_MODE_INDEX):
-        index = p.next().value.lower()
+        index_token = p.next()
+        index = index_token.value.lower()
+        if addressing_mode == AddressingMode.dp_or_sr_indirect_indexed and inner_index != "s":
+            raise ParserSyntaxError("Only (sr,s),y can be indexed after the closing parenthesis.", index_token)
         addressing_mode = index_map[addressing_mode]
 
     return OpcodeAstNode(
